@@ -29,9 +29,11 @@ def _plan(rng):
     return ",".join(steps)
 
 
-def gen(rng, tier):
+def _header(rng, overlap):
     words = ["reconnect"]
     mx = rng.choice([None, None, 0, 1, 2, 3, 5])
+    if overlap and rng.random() < 0.3:
+        mx = rng.choice([0, 1])               # requests that give up early, leaving the state down
     if mx is not None:
         words.append("max=%d" % mx)
     pol = rng.choice(["none", "fixed", "fixed", "exp", "exp", "exp", "jitter", "custom"])
@@ -59,17 +61,118 @@ def gen(rng, tier):
     pred = rng.choice([None, "1", "1", "1", "12", "13"])
     if pred is not None:
         words.append("pred=" + pred)
+    return words, delays
+
+
+VIAS = ["clone", "clone", "clone", "same", "swap", "layer"]
+
+
+def _caller_words(rng, p, budget):
+    """through which handle the request is made, and how its caller behaves (world.rs: keep / coop / burn).
+    `budget` is chosen once per case: "coop" (some callers are polled under tokio's cooperative budget), "burn" (some
+    callers' first poll happens with the budget used up) or None — never both in one case: `burn=1` uses up the budget
+    of the harness's own task tick, which a `coop=1` caller polled in the same tick (the same `settle`, or the ordinary
+    poll that follows the burnt one) would find exhausted for ever, whereas an executor re-polls it with a fresh one."""
+    w = ""
+    if rng.random() < p:
+        w += " via=" + rng.choice(VIAS)
+    if rng.random() < p * 0.15:
+        w += " keep=1"
+    if budget is not None and rng.random() < 0.4:
+        w += " %s=1" % budget
+    return w
+
+
+def _plan_overlap(rng):
+    """plans for requests that overlap: many succeed at their first attempt after a while, many fail at once"""
+    r = rng.random()
+    if r < 0.45:
+        first = "%d:ok" % rng.choice([0, 0, 1, 2, 3, 5, 8])
+    elif r < 0.85:
+        first = "%d:err1" % rng.choice([0, 0, 0, 1, 2, 4])
+    elif r < 0.93:
+        first = "%d:err%d" % (rng.choice([0, 1, 3]), rng.choice([2, 3]))
+    elif r < 0.97:
+        first = "%d:panic" % rng.choice([0, 2])
+    else:
+        first = "0:never"
+    if first.endswith("ok") or rng.random() < 0.3:
+        return first
+    return first + "," + _plan(rng)
+
+
+def gen_overlap(rng, tier):
+    """2..6 requests sharing the connection state, outstanding at the same time: issue / first poll (possibly late,
+    possibly never) / re-poll / completion / cancellation interleaved arbitrarily, `probe state` between every two
+    steps; optionally every handle dropped while requests are in flight (`manual dropsvc`) and a request arriving
+    from inside the destructor of a cancelled inner call (`manual ondrop`)"""
+    words, delays = _header(rng, True)
+    ncall = rng.randint(2, 6)
+    pending = list(range(1, ncall + 1))
+    arrived = []
+    lats = [1]
+    steps = []
+    p_arrive = rng.choice([0.25, 0.4, 0.6])
+    p_first_poll = rng.choice([0.2, 0.6, 0.9])        # low: requests are created first and polled (much) later
+    dropsvc_at = rng.randint(2, 25) if rng.random() < 0.12 else None
+    via_p = rng.choice([0, 0.5, 1])
+    budget = rng.choice([None, None, None, "coop", "burn"])
+    for i in range(rng.randint(8, 34)):
+        if dropsvc_at == i:
+            steps.append("manual dropsvc")
+        r = rng.random()
+        if pending and (r < p_arrive or not arrived):
+            c = pending.pop(0)
+            plan = _plan_overlap(rng)
+            steps.append("arrive %d inner=%s%s" % (c, plan, _caller_words(rng, via_p, budget)))
+            arrived.append(c)
+            lats += [int(x.split(":")[0]) for x in plan.split(",")]
+            if rng.random() < p_first_poll:
+                steps.append("poll %d" % c)
+        elif r < 0.55:
+            steps.append("poll %d" % rng.choice(arrived))
+        elif r < 0.59:
+            steps.append("drop %d" % rng.choice(arrived))
+        elif r < 0.62:
+            c, c2 = rng.choice(arrived), 50 + len(steps)
+            steps.append("manual ondrop c=%d by=%d inner=%s" % (c, c2, _plan_overlap(rng)))
+            if rng.random() < 0.6:
+                steps.append("drop %d" % c)
+        elif r < 0.64:
+            steps.append("release %d" % rng.choice(arrived))
+        elif r < 0.92:
+            base = rng.choice(delays + lats + [1, 1, 2])
+            steps.append("adv %d" % max(0, base + rng.choice([-1, 0, 0, 0, 1])))
+        else:
+            steps.append("settle")
+    for _ in range(rng.randint(0, 2)):
+        steps.append("adv %d" % rng.choice(delays + [1, 60]))
+        steps.append("settle")
+    ops = []
+    for st in steps:
+        ops.append(st)
+        ops.append("probe state")
+    return {"header": " ".join(words), "ops": ops}
+
+
+def gen(rng, tier):
+    if rng.random() < 0.4:
+        return gen_overlap(rng, tier)
+    words, delays = _header(rng, False)
     ncall = rng.choice([1, 1, 1, 1, 2, 2, 3])
     ops = []
     pending = list(range(1, ncall + 1))
     arrived = []
     lats = [0]
+    via_p = rng.choice([0, 0, 0.5])
+    budget = rng.choice([None, None, None, None, None, None, "coop", "burn"])
+    dropsvc_p = rng.choice([0, 0, 0, 0.03])
     for _ in range(rng.randint(8, 40)):
         r = rng.random()
         if pending and (r < 0.2 or not arrived):
             c = pending.pop(0)
             plan = _plan(rng)
-            ops.append("arrive %d inner=%s" % (c, plan))
+            ops.append("arrive %d inner=%s%s" % (c, plan, _caller_words(rng, via_p, budget)))
             arrived.append(c)
             lats += [int(p.split(":")[0]) for p in plan.split(",")]
             if rng.random() < 0.7:
@@ -88,6 +191,8 @@ def gen(rng, tier):
             ops.append("settle")
         else:
             ops.append("probe state")
+        if rng.random() < dropsvc_p:
+            ops.append("manual dropsvc")
         if rng.random() < 0.35:
             ops.append("probe state")
     for _ in range(rng.randint(0, 3)):
@@ -302,33 +407,34 @@ def mon_result(case, lines, meta):
 
 
 def mon_state(case, lines, meta):
-    """published state: connected right after a success; not connected while a reconnectable failure is being
-    handled (unless another request has marked the connection up in between)"""
+    """published state, for any number of requests sharing it, in any interleaving: it reads connected exactly from a
+    success (a request returning ok — or ending its back-off with retry_on_reconnect=false) until the next
+    reconnectable inner failure is handled by any request; in particular it is connected right after a success
+    whatever the other requests did in between, and not connected while a reconnectable failure is being handled
+    unless another request has brought the connection up meanwhile (TR.Props.C16.state_is_function_of_history)"""
     cfg = Cfg(case["header"])
-    ev = _timeline(lines, meta)
-    handling = {}          # caller -> True if no mark_connected since its reconnectable failure
+    up = False
+    why = "no request has succeeded yet"
     prev = None
-    for kind, w, t in ev:
+    for l in lines:
+        t, w = tparse(l)
         if not w:
             continue
-        if kind == "meta":
-            if w[0] == "#drop":
-                handling.pop(w[1], None)
-            continue
         if w[0] == "inner_done" and w[3].startswith("err") and cfg.reconnectable(int(w[3][3:])):
-            handling[w[1]] = True
-        elif w[0] == "result":
-            handling.pop(w[1], None)
-            if w[2].startswith("ok") or w[2].startswith("err:no_retry"):
-                for k in handling:
-                    handling[k] = False
+            up = False
+            why = "request %s is handling / has handled the connection failure %s of its inner call %s (t=%s) and no request has succeeded since" % (
+                w[1], w[3], w[2], t)
+        elif w[0] == "result" and (w[2].startswith("ok:") or w[2].startswith("err:no_retry")):
+            up = True
+            why = "request %s returned %s at t=%s and no connection failure has been handled since" % (w[1], w[2], t)
         elif w[0] == "probe" and w[1] == "state":
             st = w[3]
             if prev is not None and prev[0] == "result" and prev[2].startswith("ok:") and st != "connected":
                 return "state() is %s right after request %s succeeded" % (st, prev[1])
-            bad = [c for c, v in handling.items() if v]
-            if st == "connected" and bad:
-                return "state() is connected at t=%s while request(s) %s are handling a connection failure" % (t, ",".join(bad))
+            if up and st != "connected":
+                return "state() is %s at t=%s although %s" % (st, t, why)
+            if not up and st == "connected":
+                return "state() is connected at t=%s although %s" % (t, why)
         prev = w
     return None
 
@@ -336,9 +442,15 @@ def mon_state(case, lines, meta):
 # ----------------------------------------------------------------------------- coverage
 
 def transitions(case, lines, meta=None):
+    cfg = Cfg(case["header"])
     tags = []
     ncalls = {}
     last_done = {}
+    first_call_t = {}
+    issued = {}            # request -> (link up when it was issued, number of reconnectable failures handled so far)
+    up = False
+    failures = 0
+    live = set()
     for l in lines:
         t, w = tparse(l)
         if not w:
@@ -348,24 +460,66 @@ def transitions(case, lines, meta=None):
             ncalls[w[1]] = i + 1
             if i == 0:
                 tags.append("call-first")
+                first_call_t[w[1]] = t
+                issued[w[1]] = (up, failures)
+                if live:
+                    tags.append("issued-while-others-outstanding")
+                live.add(w[1])
             else:
                 tags.append("call-retry")
                 if last_done.get(w[1]) == t:
                     tags.append("call-retry-same-instant")
         elif w[0] == "inner_done":
             last_done[w[1]] = t
+            if w[3].startswith("err") and cfg.reconnectable(int(w[3][3:])):
+                up = False
+                failures += 1
         elif w[0] == "inner_drop":
             tags.append("dropped-calling")
+            live.discard(w[1])
         elif w[0] == "result":
             r = w[2]
+            live.discard(w[1])
             if r.startswith("ok"):
-                tags.append("result-ok-first" if ncalls.get(w[1], 0) <= 1 else "result-ok-after-retry")
+                first = ncalls.get(w[1], 0) <= 1
+                tags.append("result-ok-first" if first else "result-ok-after-retry")
+                was_up, f0 = issued.get(w[1], (False, 0))
+                if first and failures > f0:
+                    # issued, then ANOTHER request handled a connection failure, then this one succeeds at its first attempt
+                    tags.append("ok-first-after-foreign-failure")
+                    if was_up:
+                        tags.append("ok-first-after-foreign-failure-issued-while-connected")
+                up = True
             elif r == "panic":
                 tags.append("result-panic")
+            elif r == "notready":
+                tags.append("result-notready")
             else:
                 tags.append("result-" + r.split(":")[1])
+                if r.startswith("err:no_retry"):
+                    up = True
         elif w[0] == "probe":
             tags.append("probe-" + w[3])
+    gone = None
+    for i, m in (meta or []):
+        w = m.split()
+        if w[0] == "#fp" and w[1] in first_call_t and int(w[2]) > first_call_t[w[1]]:
+            tags.append("first-poll-late")
+        elif w[0] == "#dropsvc" and i >= 0:
+            gone = i
+            tags.append("dropsvc")
+        elif w[0] == "#ondrop" and i >= 0:
+            tags.append("arrival-inside-inner-destructor")
+    if gone is not None:
+        if any(tparse(l)[1][:1] in (["inner_done"], ["inner_call"], ["result"]) for l in lines[gone:]):
+            tags.append("progress-after-dropsvc")
+        if any(l.strip() == "noop" for l in lines[gone:]) and any(o.startswith("arrive") for o in case["ops"]):
+            tags.append("noop-after-dropsvc")
+    for o in case["ops"]:
+        if o.startswith("arrive"):
+            for k in ("via=same", "via=swap", "via=layer", "keep=1", "coop=1", "burn=1"):
+                if k in o.split():
+                    tags.append("arrive-" + k.replace("=1", "").replace("=", "-"))
     return tags
 
 
@@ -393,11 +547,21 @@ SPECS = {
         "nontrivial": nontrivial,
         "all_transitions": ["call-first", "call-retry", "call-retry-same-instant", "dropped-calling", "result-ok-first",
                             "result-ok-after-retry", "result-panic", "result-service", "result-max_attempts", "result-conn_failed",
-                            "result-no_retry", "probe-connected", "probe-disconnected", "probe-reconnecting"],
-        "model_modules": ["TR.Model.Reconnect", "TR.Lemmas.Reconnect"],
-        "lean_files": ["TR.Model.Reconnect", "TR.Lemmas.Reconnect"],
+                            "result-no_retry", "probe-connected", "probe-disconnected", "probe-reconnecting",
+                            "issued-while-others-outstanding", "ok-first-after-foreign-failure",
+                            "ok-first-after-foreign-failure-issued-while-connected", "first-poll-late", "dropsvc",
+                            "progress-after-dropsvc", "noop-after-dropsvc", "arrival-inside-inner-destructor",
+                            "arrive-via-same", "arrive-via-swap", "arrive-via-layer", "arrive-keep", "arrive-coop", "arrive-burn"],
+        "model_modules": ["TR.Model.Reconnect", "TR.Lemmas.Reconnect", "TR.Lemmas.ReconnectHistory"],
+        "lean_files": ["TR.Model.Reconnect", "TR.Lemmas.Reconnect", "TR.Lemmas.ReconnectHistory"],
         "sizes": (600, 30000),
-        "rule": "seeded random op sequences (arrive/poll/drop/adv/settle/probe state) over 1..3 requests sharing one ReconnectLayer, "
+        "rule": "40 % of the cases: 2..6 requests outstanding at the same time on one shared ReconnectState (made through a dropped "
+                "clone, the same handle, the mem::replace idiom or a service made by the same layer), issue / late or missing first poll / "
+                "re-poll / completion / cancellation interleaved at random with `probe state` after every step, plans biased to "
+                "first-attempt successes with latency and immediate reconnectable failures, optionally `manual dropsvc` (every handle "
+                "and the layer dropped while requests are in flight), `manual ondrop` (a request arriving inside the destructor of a "
+                "cancelled inner call), callers that keep finished futures / poll under the cooperative budget; the rest: "
+                "seeded random op sequences (arrive/poll/drop/adv/settle/probe state) over 1..3 requests sharing one ReconnectLayer, "
                 "plans of 1..7 scripted inner outcomes (ok / reconnectable err1 / other err2,err3 / panic / never, latency 0..12 ms), "
                 "max_attempts none/0/1/2/3/5, policy none/fixed/exponential/jittered/custom with delays 0..50 ms, retry_on_reconnect on/off, "
                 "predicate absent/{1}/{1,2}/{1,3}; advances biased to delay-1/delay/delay+1; distinct = distinct implementation event log; "
@@ -412,7 +576,9 @@ SPECS = {
                       "a reconnectable error, with retry_on_reconnect on and a policy delay that the policy allows for that attempt, not earlier "
                       "than error instant + delay; the result is determined by the last inner call (first success, or the variant wrapping the "
                       "last inner error); the published state is Connected after a success and Reconnecting while the request that last wrote it "
-                      "is still handling a failure. The model is tied to the real ReconnectLayer by line-for-line agreement of event logs.",
+                      "is still handling a failure; for any number of requests sharing the state in any interleaving the published state "
+                      "reads Connected exactly from a success until the next reconnectable failure is handled (a function of the order of "
+                      "completions, not of what the state read when a request was issued). The model is tied to the real ReconnectLayer by line-for-line agreement of event logs.",
         "level_note": LEVEL_NOTE,
     },
 }
